@@ -27,6 +27,9 @@ def collect(res, wr):
     for f in wr.failures:
         res.violations.append(core.Violation(f["msg"], replay_text=f["replay_text"]))
     for c in wr.crashes:
+        if c["rc"] == "timeout":      # a plain timeout is never a violation (rule 5): e.g. a corrupted structure can make un-hooked code spin forever
+            res.inconclusive = "worker '%s' exceeded its time limit" % c.get("tag", "")
+            continue
         res.violations.append(core.Violation("harness process died (rc=%s): %s" % (c["rc"], c["log_tail"][-1200:]),
                                              replay_text="# crash of %s\n%s" % (" ".join(c["cmd"]), c["log_tail"][-1500:])))
 
@@ -34,6 +37,7 @@ def collect(res, wr):
 def run(tier, seed, res):
     b = _build()
     quick = tier == "quick"
+    tmo = 900 if quick else 4 * 3600
     res.rule = RULE
     res.assumptions = ["push_sorted / chain_sorted / ring_push_sorted are only applied to lists / rings that are sorted (non-increasing priority)",
                        "nolock variants only without concurrency; positions passed to add_before/after/remove belong to the list",
@@ -41,32 +45,40 @@ def run(tier, seed, res):
                        "sequential consistency at atomic-operation granularity under dsched"]
     n = 16
     jobs = [dict(cmd=[b, "exhs"], env={"ASAN_OPTIONS": ASAN}, tag="exhs")]
-    pb, no = ("2", "6") if quick else ("1000000", "8")
+    pb, no = ("2", "5") if quick else ("1000000", "8")
     jobs += [dict(cmd=[b, "exhc", str(i), str(n - 1), "0", pb, no], env={"ASAN_OPTIONS": ASAN}, tag="exhc") for i in range(n - 1)]
     if not quick:
         jobs += [dict(cmd=[b, "exhc", str(i), str(n), "1", "3", "8"], env={"ASAN_OPTIONS": ASAN}, tag="exhc1") for i in range(n)]
-    wr = core.run_workers(PROP, jobs)
+    wr = core.run_workers(PROP, jobs, timeout=tmo)
     res.absorb(wr, "exhaustive")
     res.coverage["exhaustive"] = not (wr.failures or wr.crashes)
     res.coverage["exhaustive_subspace"] = ("sort of every priority vector over {0,1,2} up to length 7; push_sorted / chain_sorted / ring_push_sorted of every "
                                            "sorted base (len<=4) x every chain (len<=3) over {0,1,2}; every program of 2 threads x 2 locked ops "
                                            "(%s op kinds) x every schedule with at most %s preemptions" % (no, pb if quick else "any number of"))
     collect(res, wr)
+    if res.violations:
+        return
     per = 600 if quick else 250000
     jobs = [dict(cmd=[b, "seq"], env={"ASAN_OPTIONS": ASAN, "RC_PARAMS": "seed=%d max_success=%d max_size=100" % (seed * 131 + i, per)}, tag="seq") for i in range(n)]
-    wr = core.run_workers(PROP, jobs)
+    wr = core.run_workers(PROP, jobs, timeout=tmo)
     res.absorb(wr, "seq")
     collect(res, wr)
+    if res.violations:
+        return
     per = 500 if quick else 150000
     jobs = [dict(cmd=[b, "conc"], env={"ASAN_OPTIONS": ASAN, "RC_PARAMS": "seed=%d max_success=%d max_size=100" % (seed * 137 + i, per)}, tag="conc") for i in range(n)]
-    wr = core.run_workers(PROP, jobs)
+    wr = core.run_workers(PROP, jobs, timeout=tmo)
     res.absorb(wr, "conc")
     collect(res, wr)
+    if res.violations:
+        return
     iters = 50000 if quick else 10000000
     jobs = [dict(cmd=[b, "stress", str(t), str(iters), str(seed * 17 + t)], env={"ASAN_OPTIONS": ASAN}, tag="stress") for t in (2, 4, 8, 16)]
-    wr = core.run_workers(PROP, jobs, max_parallel=1)
+    wr = core.run_workers(PROP, jobs, timeout=tmo, max_parallel=1)
     res.absorb(wr, "stress")
     collect(res, wr)
+    if res.violations:
+        return
 
 
 def replay(path):
